@@ -1,6 +1,6 @@
 (* C02 - no lint fails internally on any input the parser accepts.  Statements only
    (proofs: Framework/FatalFacts.v, Kernels/Walkers.v, Kernels/BodiesFacts.v). *)
-From ZL Require Import Base.Bytes Framework.Core Framework.LifecycleFacts Framework.FatalFacts Kernels.Walkers Kernels.Bodies Kernels.BodiesFacts.
+From ZL Require Import Base.Bytes Framework.Core Framework.LifecycleFacts Framework.FatalFacts Kernels.Walkers Kernels.Bodies Kernels.BodiesFacts Kernels.Crl.
 Open Scope Z_scope.
 
 (* a fatal status is an explicit decision of the body, a configuration error, or a recovered panic *)
@@ -74,6 +74,17 @@ Theorem c02_dn_printable : forall vals,
   safe (dn_not_printable vals) /\ dn_not_printable vals = Val (if existsb val_ctl vals then 6 else 3).
 Proof. intro vals. split; [exact (dn_not_printable_safe vals) | exact (dn_not_printable_exists vals)]. Qed.
 
+(* revocation lists and OCSP responses are linted without a recovery net.  Eight of the ten revocation-list lints and
+   the OCSP lint are modelled in full (Kernels/Crl.v) as total functions of the parsed view: they answer NA, pass, warn
+   or error on every list, and - except the RFC reason-code lint, whose warning/error choice follows entry order -
+   do not depend on the order of the revoked-certificate entries *)
+Theorem c02_crl_lints_range : forall v s, In s (all_crl_lints v) -> s = 1 \/ s = 3 \/ s = 5 \/ s = 6.
+Proof. exact crl_lints_range. Qed.
+
+Theorem c02_crl_entry_order : forall v es', Permutation.Permutation (cv_entries v) es' ->
+  firstn 7 (all_crl_lints (with_entries v es')) = firstn 7 (all_crl_lints v).
+Proof. exact crl_lints_entry_order. Qed.
+
 Print Assumptions c02_fatal_origin.
 Print Assumptions c02_framework.
 Print Assumptions c02_plain.
@@ -84,6 +95,8 @@ Print Assumptions c02_gentime_guard_needed.
 Print Assumptions c02_bodies_total.
 Print Assumptions c02_gentime_range.
 Print Assumptions c02_dn_printable.
+Print Assumptions c02_crl_lints_range.
+Print Assumptions c02_crl_entry_order.
 
 (* non-vacuity: a 15-octet Zulu GeneralizedTime meets the guard; the lints pass on it and report the 13-octet form *)
 Example c02_gentime_example :
